@@ -159,3 +159,359 @@ Example trie1_nontrivial :
   | None => False
   end.
 Proof. vm_compute. split; reflexivity. Qed.
+
+(* ====================================================================================== *)
+(* core/trie/bitarray.go at WORD level (BitArray.v) and node.go WriteTo / UnmarshalBinary    *)
+(* proofs: Proofs_ba_bits.v, Proofs_ba_words.v, Proofs_ba_ops.v, Proofs_ba_codec.v,        *)
+(* Proofs_ba_refine.v                                                                       *)
+(* ====================================================================================== *)
+From Coq Require Import NArith.
+From V Require Import C01.BitArray C01.Proofs_ba_bits C01.Proofs_ba_words C01.Proofs_ba_ops
+  C01.Proofs_ba_codec C01.Proofs_ba_refine.
+Local Open Scope N_scope.
+
+(* [bits b] = the low [blen b] bits of the four words, most significant first; [wf b] = len < 2^8,
+   words < 2^64, and the bits above len are zero. A well-formed array IS its bit list. *)
+Definition ba_bits_length_stmt : Prop := forall b, length (bits b) = N.to_nat (blen b).
+
+Definition ba_bits_injective_stmt : Prop := forall a b, wf a -> wf b -> bits a = bits b -> a = b.
+
+Definition ba_wfb_correct_stmt : Prop := forall b, wfb b = true <-> wf b.
+
+(* truncateToLength establishes well-formedness from any in-range words and is the identity on
+   well-formed arrays *)
+Definition ba_truncate_stmt : Prop := forall b, inrange b ->
+  wf (truncate b) /\ blen (truncate b) = blen b /\ val (truncate b) = val b mod 2 ^ blen b.
+
+Definition ba_truncate_id_stmt : Prop := forall b, wf b -> truncate b = b.
+
+(* the statements above, proved (one theorem per group keeps the per-run axiom check short) *)
+Theorem C01_ba_abstraction :
+  ba_bits_length_stmt /\
+  ba_bits_injective_stmt /\
+  ba_wfb_correct_stmt /\
+  ba_truncate_stmt /\
+  ba_truncate_id_stmt.
+Proof. exact (conj bits_length (conj bits_inj (conj wfb_wf (conj truncate_spec truncate_id)))). Qed.
+Print Assumptions C01_ba_abstraction.
+
+(* the word-level shifts across 64-bit boundaries are shifts of the 256-bit number, for every
+   count 0 < n < 256 (all four cases of the switch, n a multiple of 64 included) *)
+Definition ba_rsh_words_stmt : Prop := forall x n, inrange x -> 0 < n -> n < 256 ->
+  inrange (rsh_words x n) /\ val (rsh_words x n) = N.shiftr (val x) n.
+
+Definition ba_lsh_words_stmt : Prop := forall l x n, inrange x -> l < 256 -> 0 < n -> n < 256 ->
+  inrange (lsh_words l x n) /\ val (lsh_words l x n) = N.shiftl (val x) n mod 2 ^ 256.
+
+(* LSBs(x, n) = x[n:], LSBsFromLSB(x, n) = the last n bits, MSBs(x, n) = x[:n], Rsh(x, n) drops the
+   last n bits: all lengths 0..255 and all n in uint8 *)
+Definition ba_lsbs_stmt : Prop := forall x n, wf x -> n < 256 ->
+  wf (lsbs x n) /\ bits (lsbs x n) = skipn (N.to_nat n) (bits x).
+
+Definition ba_lsbs_from_lsb_stmt : Prop := forall x n, wf x -> n < 256 ->
+  wf (lsbs_from_lsb x n) /\ bits (lsbs_from_lsb x n) = skipn (N.to_nat (blen x) - N.to_nat n) (bits x).
+
+Definition ba_msbs_stmt : Prop := forall x n, wf x -> n < 256 ->
+  wf (msbs x n) /\ bits (msbs x n) = firstn (N.to_nat n) (bits x) /\ blen (msbs x n) = N.min (blen x) n.
+
+Definition ba_rsh_stmt : Prop := forall x n, wf x -> n < 256 ->
+  wf (rsh x n) /\ bits (rsh x n) = firstn (N.to_nat (blen x) - N.to_nat n) (bits x) /\
+  blen (rsh x n) = blen x - n /\ val (rsh x n) = N.shiftr (val x) n.
+
+(* Lsh appends n zeros; an empty array stays empty; when len + n exceeds 255 the length saturates at
+   255 and the leading len + n - 255 bits are lost (the uint8 guard of the Go code) *)
+Definition ba_lsh_stmt : Prop := forall x n, wf x -> n < 256 ->
+  wf (lsh x n) /\
+  bits (lsh x n) = (if blen x =? 0 then nil
+                    else skipn (N.to_nat (blen x) + N.to_nat n - 255) (bits x ++ repeat false (N.to_nat n))) /\
+  blen (lsh x n) = (if blen x =? 0 then 0 else N.min 255 (blen x + n)).
+
+(* Append is list concatenation whenever the lengths fit into 255 bits (every caller: keys of at most
+   251 bits); beyond that it keeps the LAST 255 bits *)
+Definition ba_append_stmt : Prop := forall x y, wf x -> wf y ->
+  wf (append x y) /\
+  bits (append x y) = skipn (N.to_nat (blen x) + N.to_nat (blen y) - 255) (bits x ++ bits y) /\
+  blen (append x y) = N.min 255 (blen x + blen y).
+
+Definition ba_append_fits_stmt : Prop := forall x y, wf x -> wf y -> blen x + blen y <= 255 ->
+  wf (append x y) /\ bits (append x y) = bits x ++ bits y.
+
+Definition ba_append_bit_stmt : Prop := forall x b, wf x ->
+  wf (append_bit x b) /\ bits (append_bit x b) = skipn (N.to_nat (blen x) + 1 - 255) (bits x ++ N.odd b :: nil).
+
+Definition ba_append_zeros_stmt : Prop := forall x n, wf x -> n < 256 ->
+  wf (append_zeros x n) /\
+  bits (append_zeros x n) = skipn (N.to_nat (blen x) + N.to_nat n - 255) (bits x ++ repeat false (N.to_nat n)).
+
+Definition ba_subset_stmt : Prop := forall x s e, wf x -> s < 256 -> e < 256 ->
+  wf (subset x s e) /\ bits (subset x s e) = firstn (N.to_nat e - N.to_nat s) (skipn (N.to_nat s) (bits x)).
+
+(* the statements above, proved (one theorem per group keeps the per-run axiom check short) *)
+Theorem C01_ba_slices :
+  ba_lsbs_stmt /\
+  ba_lsbs_from_lsb_stmt /\
+  ba_msbs_stmt /\
+  ba_rsh_stmt /\
+  ba_subset_stmt.
+Proof. exact (conj lsbs_spec (conj lsbs_from_lsb_spec (conj msbs_spec (conj rsh_spec subset_spec)))). Qed.
+Print Assumptions C01_ba_slices.
+
+Definition ba_set_bit_stmt : Prop := forall b, wf (set_bit b) /\ bits (set_bit b) = N.odd b :: nil.
+
+Definition ba_ones_stmt : Prop := forall n, n < 256 -> wf (ones n) /\ bits (ones n) = repeat true (N.to_nat n).
+
+Definition ba_zeros_stmt : Prop := forall n, n < 256 -> wf (zeros n) /\ bits (zeros n) = repeat false (N.to_nat n).
+
+(* the statements above, proved (one theorem per group keeps the per-run axiom check short) *)
+Theorem C01_ba_concat :
+  ba_lsh_stmt /\
+  ba_append_stmt /\
+  ba_append_fits_stmt /\
+  ba_append_bit_stmt /\
+  ba_append_zeros_stmt /\
+  ba_set_bit_stmt /\
+  ba_ones_stmt /\
+  ba_zeros_stmt.
+Proof. exact (conj lsh_spec (conj append_spec (conj append_fits (conj append_bit_spec (conj append_zeros_spec (conj set_bit_spec (conj ones_spec zeros_spec))))))). Qed.
+Print Assumptions C01_ba_concat.
+
+(* Or / And / Xor are the bitwise operations on the 256-bit numbers (the result takes x's length, Xor
+   the receiver's) *)
+Definition ba_or_and_xor_stmt : Prop := forall l x y, inrange x -> inrange y -> l < 256 ->
+  val (ba_or x y) = N.lor (val x) (val y) /\ val (ba_and x y) = N.land (val x) (val y) /\
+  val (ba_xor l x y) = N.lxor (val x) (val y) /\
+  inrange (ba_or x y) /\ inrange (ba_and x y) /\ inrange (ba_xor l x y).
+
+(* findFirstSetBit = bit length of the 256-bit number, as uint8 (256 wraps to 0: only when bit 255 is
+   set, which a well-formed array never has) *)
+Definition ba_find_first_set_bit_stmt : Prop := forall b, inrange b ->
+  find_first_set_bit b = if blen b =? 0 then 0 else N.size (val b) mod 256.
+
+(* the statements above, proved (one theorem per group keeps the per-run axiom check short) *)
+Theorem C01_ba_word_algorithms :
+  ba_rsh_words_stmt /\
+  ba_lsh_words_stmt /\
+  ba_or_and_xor_stmt /\
+  ba_find_first_set_bit_stmt.
+Proof. exact (conj rsh_words_spec (conj lsh_words_spec (conj or_and_xor_spec find_first_set_bit_val))). Qed.
+Print Assumptions C01_ba_word_algorithms.
+
+Definition ba_bit_stmt : Prop := forall b n, inrange b -> n < 256 -> bit b n = N.b2n (nth (N.to_nat n) (bits b) false).
+
+Definition ba_bit_from_lsb_stmt : Prop := forall b n, inrange b -> n < 256 ->
+  bit_from_lsb b n = N.b2n (nth (N.to_nat (blen b) - 1 - N.to_nat n) (bits b) false && (n <? blen b)).
+
+(* Cmp: by length first, then the bit lists as numbers (the bits.Sub64 borrow chain) *)
+Definition ba_cmp_stmt : Prop := forall a b, wf a -> wf b ->
+  ba_cmp a b = if blen a <? blen b then Lt else if blen b <? blen a then Gt
+               else (N_of_bits (bits a) ?= N_of_bits (bits b)).
+
+Definition ba_cmp_eq_stmt : Prop := forall a b, wf a -> wf b -> (ba_cmp a b = Eq <-> a = b).
+
+(* the statements above, proved (one theorem per group keeps the per-run axiom check short) *)
+Theorem C01_ba_bit_access_and_cmp :
+  ba_bit_stmt /\
+  ba_bit_from_lsb_stmt /\
+  ba_cmp_stmt /\
+  ba_cmp_eq_stmt.
+Proof. exact (conj bit_spec (conj bit_from_lsb_spec (conj ba_cmp_bits ba_cmp_eq))). Qed.
+Print Assumptions C01_ba_bit_access_and_cmp.
+
+(* SetFelt / SetBytes / SetUint64 / Felt *)
+Definition ba_set_felt_stmt : Prop := forall l f, l < 256 -> f < 2 ^ 256 ->
+  wf (set_felt l f) /\ bits (set_felt l f) = bits_of f (N.to_nat l) /\ blen (set_felt l f) = l.
+
+Definition ba_set_bytes_stmt : Prop := forall l data, l < 256 -> bytes_ok data ->
+  wf (set_bytes l data) /\ bits (set_bytes l data) = bits_of (be_val (firstn 32 data)) (N.to_nat l) /\
+  blen (set_bytes l data) = l.
+
+Definition ba_new_bit_array_stmt : Prop := forall l d, l < 256 -> d < 2 ^ 64 ->
+  wf (new_bit_array l d) /\ bits (new_bit_array l d) = bits_of d (N.to_nat l).
+
+Definition ba_felt_stmt : Prop := forall b, inrange b -> ba_felt b = val b mod felt_P.
+
+(* the statements above, proved (one theorem per group keeps the per-run axiom check short) *)
+Theorem C01_ba_setters :
+  ba_set_felt_stmt /\
+  ba_set_bytes_stmt /\
+  ba_new_bit_array_stmt /\
+  ba_felt_stmt.
+Proof. exact (conj set_felt_spec (conj set_bytes_spec (conj set_uint64_spec ba_felt_val))). Qed.
+Print Assumptions C01_ba_setters.
+
+(* Write / UnmarshalBinary ("active bytes"): self-delimiting round trip, injective, prefix free;
+   what UnmarshalBinary accepts in general; what it rejects *)
+Definition ba_unmarshal_write_stmt : Prop := forall b tail, wf b -> ba_unmarshal (ba_write b ++ tail) = Some b.
+
+Definition ba_write_injective_stmt : Prop := forall a b, wf a -> wf b -> ba_write a = ba_write b -> a = b.
+
+Definition ba_write_prefix_free_stmt : Prop := forall a b t1 t2, wf a -> wf b ->
+  ba_write a ++ t1 = ba_write b ++ t2 -> a = b /\ t1 = t2.
+
+Definition ba_write_length_stmt : Prop := forall b, blen b < 256 -> N.of_nat (length (ba_write b)) = encoded_len b.
+
+Definition ba_unmarshal_accepts_stmt : Prop := forall data b, bytes_ok data -> ba_unmarshal data = Some b ->
+  exists l rest, data = l :: rest /\ blen b = l /\ inrange b /\
+    (l + 7) / 8 <= N.of_nat (length rest) /\ val b = be_val (firstn (N.to_nat ((l + 7) / 8)) rest).
+
+Definition ba_unmarshal_rejects_stmt : Prop := forall l rest,
+  ba_unmarshal nil = None /\
+  (N.of_nat (length rest) < (l + 7) / 8 -> ba_unmarshal (l :: rest) = None).
+
+(* the statements above, proved (one theorem per group keeps the per-run axiom check short) *)
+Theorem C01_ba_codec :
+  ba_unmarshal_write_stmt /\
+  ba_write_injective_stmt /\
+  ba_write_prefix_free_stmt /\
+  ba_write_length_stmt /\
+  ba_unmarshal_accepts_stmt /\
+  ba_unmarshal_rejects_stmt.
+Proof. exact (conj ba_unmarshal_write (conj ba_write_inj (conj ba_write_prefix_free (conj ba_write_length (conj ba_unmarshal_spec unmarshal_rejects))))). Qed.
+Print Assumptions C01_ba_codec.
+
+(* beyond Write's image: bits above len are kept (no truncateToLength), trailing bytes are ignored *)
+Example ba_unmarshal_beyond_image :
+  ba_unmarshal (3 :: 255 :: nil) = Some (BA 3 255 0 0 0) /\ wfb (BA 3 255 0 0 0) = false /\
+  ba_unmarshal (3 :: 5 :: 9 :: 9 :: nil) = Some (BA 3 5 0 0 0) /\ ba_write (BA 3 5 0 0 0) = 3 :: 5 :: nil.
+Proof. vm_compute. repeat split; reflexivity. Qed.
+
+(* ---------- node.go WriteTo / UnmarshalBinary ---------- *)
+(* decode (encode n) gives n back, except that an inner node written WITHOUT hashes comes back with
+   non-nil LeftHash/RightHash: zero for a fresh receiver, the receiver's old values for a pooled one
+   ([node_fill]); Value, Left and Right always round-trip *)
+Definition node_roundtrip_stmt : Prop := forall n, node_wf n ->
+  exists bs, node_encode n = Some bs /\
+    forall rlh rrh, node_decode rlh rrh bs = Some (node_fill rlh rrh n).
+
+Definition node_encode_injective_stmt : Prop := forall n1 n2 bs, node_wf n1 -> node_wf n2 ->
+  node_encode n1 = Some bs -> node_encode n2 = Some bs -> n1 = n2.
+
+(* decode rejects inputs of a wrong length: a result is a leaf exactly on 32 bytes, otherwise an inner
+   node on 32 + both encoded child keys (+ 64 bytes of hashes); anything shorter than 32 is rejected *)
+Definition node_decode_length_stmt : Prop := forall rlh rrh data n, node_decode rlh rrh data = Some n ->
+  match sn_left n, sn_right n with
+  | None, None => length data = 32%nat
+  | Some l, Some r =>
+      N.of_nat (length data) = 32 + encoded_len l + encoded_len r \/
+      N.of_nat (length data) = 32 + encoded_len l + encoded_len r + 64
+  | _, _ => False
+  end.
+
+Definition node_decode_short_stmt : Prop := forall rlh rrh data, (length data < 32)%nat -> node_decode rlh rrh data = None.
+
+(* the statements above, proved (one theorem per group keeps the per-run axiom check short) *)
+Theorem C01_node_codec :
+  node_roundtrip_stmt /\
+  node_encode_injective_stmt /\
+  node_decode_length_stmt /\
+  node_decode_short_stmt.
+Proof. exact (conj node_roundtrip (conj node_encode_inj (conj node_decode_length node_decode_short))). Qed.
+Print Assumptions C01_node_codec.
+
+(* witnesses: a concrete inner node round-trips; the stale-hash effect of a pooled receiver; what the
+   decoder accepts beyond encode's image (a value >= P is reduced; child keys with bits above len) *)
+Example node_roundtrip_nontrivial :
+  let n := SN (Some 7) (Some (BA 3 5 0 0 0)) (Some (BA 251 1 2 3 4)) None None in
+  node_encode n = Some (felt_bytes 7 ++ ba_write (BA 3 5 0 0 0) ++ ba_write (BA 251 1 2 3 4)) /\
+  wfb (BA 251 1 2 3 4) = true /\
+  (match node_encode n with
+   | Some bs => node_decode None None bs = Some (SN (Some 7) (Some (BA 3 5 0 0 0)) (Some (BA 251 1 2 3 4)) (Some 0) (Some 0)) /\
+                node_decode (Some 11) (Some 13) bs = Some (SN (Some 7) (Some (BA 3 5 0 0 0)) (Some (BA 251 1 2 3 4)) (Some 11) (Some 13))
+   | None => False
+   end).
+Proof. vm_compute. repeat split; reflexivity. Qed.
+
+(* consequence (observation 1 of findings/C01.md): writing back a node that was read from storage is not
+   the identity on bytes - an inner node stored without hashes grows by 64 (zero or stale) bytes *)
+Example node_reencode_grows :
+  let n := SN (Some 7) (Some (BA 3 5 0 0 0)) (Some (BA 251 1 2 3 4)) None None in
+  match node_encode n with
+  | Some bs => match node_decode None None bs with
+               | Some m => node_encode m = Some (bs ++ repeat 0 64)
+               | None => False
+               end
+  | None => False
+  end.
+Proof. vm_compute. reflexivity. Qed.
+
+Example node_decode_beyond_image :
+  node_decode None None (repeat 255 32) = Some (SN (Some ((2 ^ 256 - 1) mod felt_P)) None None None None) /\
+  node_decode None None (repeat 0 32 ++ 3 :: 255 :: 0 :: nil) =
+    Some (SN (Some 0) (Some (BA 3 255 0 0 0)) (Some (BA 0 0 0 0 0)) (Some 0) (Some 0)) /\
+  node_decode None None (repeat 0 32 ++ 3 :: 5 :: 0 :: 1 :: nil) = None.
+Proof. vm_compute. repeat split; reflexivity. Qed.
+
+(* ---------- refinement link: trie.go's key computations are Trie1.v's under [bits] ---------- *)
+(* FeltToKey = SetFelt(height, key) *)
+Theorem C01_bitarray_felt_to_key : forall h k, h < 256 -> k < 2 ^ 256 ->
+  wf (set_felt h k) /\ bits (set_felt h k) = bits_of_Z (N.to_nat h) (Z.of_N k).
+Proof. exact felt_to_key_refines. Qed.
+Print Assumptions C01_bitarray_felt_to_key.
+
+(* path(key, parentKey) = LSBs(key, parentKey.Len()+1); the uint8 sum wraps only for a 255-bit parent
+   key: callers pass parents strictly shorter than the key, keys have at most 251 bits *)
+Theorem C01_bitarray_path : forall key parent, wf key -> blen parent < 255 ->
+  wf (ba_path key (Some parent)) /\
+  bits (ba_path key (Some parent)) = Trie1.rel_path (bits key) (Some (bits parent)).
+Proof. exact path_refines. Qed.
+Print Assumptions C01_bitarray_path.
+
+Theorem C01_bitarray_path_nil : forall key, ba_path key None = key /\ Trie1.rel_path (bits key) None = bits key.
+Proof. exact path_nil_refines. Qed.
+Print Assumptions C01_bitarray_path_nil.
+
+(* nodesFromRoot / updateValueIfDirty: key.EqualMSBs(cur), key.IsBitSet(cur.Len()), the Len() tests *)
+Theorem C01_bitarray_equal_msbs : forall b x, wf b -> wf x ->
+  ba_equal_msbs b x = Trie1.equal_msbs (bits b) (bits x).
+Proof. exact equal_msbs_spec. Qed.
+Print Assumptions C01_bitarray_equal_msbs.
+
+Theorem C01_bitarray_is_bit_set : forall b n, inrange b -> n < 256 ->
+  ba_is_bit_set b n = Trie1.is_bit_set (bits b) (N.to_nat n).
+Proof. exact is_bit_set_spec. Qed.
+Print Assumptions C01_bitarray_is_bit_set.
+
+Theorem C01_bitarray_len : forall a b h,
+  (blen a <=? blen b) = Nat.leb (length (bits a)) (length (bits b)) /\
+  (blen a <? blen b) = Nat.ltb (length (bits a)) (length (bits b)) /\
+  (blen a =? h) = Nat.eqb (length (bits a)) (N.to_nat h).
+Proof. exact len_refines_all. Qed.
+Print Assumptions C01_bitarray_len.
+
+(* insertOrUpdateValue: commonKey.CommonMSBs(nodeKey, sibling.key) is the longest common prefix *)
+Theorem C01_bitarray_common_msbs : forall x y, wf x -> wf y ->
+  wf (ba_common_msbs x y) /\ bits (ba_common_msbs x y) = Trie1.common_msbs (bits x) (bits y).
+Proof. exact common_msbs_spec. Qed.
+Print Assumptions C01_bitarray_common_msbs.
+
+(* Equal on keys / child links (nil = None) *)
+Theorem C01_bitarray_equal : forall x y, owf x -> owf y ->
+  oba_eqb x y = Trie1.opeqb (option_map bits x) (option_map bits y).
+Proof. exact oba_eqb_refines. Qed.
+Print Assumptions C01_bitarray_equal.
+
+(* node.Hash: path.Len() == 0 and path.Felt() on keys of at most 251 bits *)
+Theorem C01_bitarray_path_felt : forall p, wf p -> blen p <= 251 ->
+  ba_felt p = N_of_bits (bits p) /\
+  (blen p =? 0) = match bits p with nil => true | _ => false end.
+Proof. exact path_felt_refines. Qed.
+Print Assumptions C01_bitarray_path_felt.
+
+(* storage.go dbKey = prefix ++ key.Write(): distinct node paths get distinct database keys, so the
+   finite map "node path -> node" of Trie1.v is what the key/value store holds under the prefix *)
+Theorem C01_bitarray_db_key_injective : forall (prefix : list N) a b, wf a -> wf b ->
+  prefix ++ ba_write a = prefix ++ ba_write b -> a = b.
+Proof. exact db_key_injective. Qed.
+Print Assumptions C01_bitarray_db_key_injective.
+
+(* non-vacuity on word boundaries: a 251-bit key and a 193-bit key sharing 130 bits *)
+Example bitarray_nontrivial :
+  let k := set_felt 251 (2 ^ 250 + 2 ^ 121 + 5) in
+  let s := rsh (set_felt 251 (2 ^ 250 + 2 ^ 120 + 2 ^ 64)) 58 in
+  wfb k = true /\ wfb s = true /\ blen s = 193 /\
+  blen (ba_common_msbs k s) = 129 /\
+  bits (ba_common_msbs k s) = Trie1.common_msbs (bits k) (bits s) /\
+  ba_is_bit_set k 129 = true /\ ba_is_bit_set s 129 = false /\
+  ba_unmarshal (ba_write k) = Some k /\
+  bits (ba_path k (Some (ba_common_msbs k s))) = skipn 130 (bits k).
+Proof. vm_compute. repeat split; reflexivity. Qed.
